@@ -21,10 +21,11 @@ from vcdd.monitors import contracts
 PID = "C09"
 ALPHABET = ("\n", "    ", " ", '"', "'", '"""', "'''", "#", "\\", "(", ")", "[", "]", "{", "}", ":", "=", "@", ";",
             "def", "class", "x")
-RULE = ("(1) every sequence of length <= N over the 22-token alphabet %r (N=4 quick, N=5 thorough; distinct by "
+RULE_TPL = ("(1) every sequence of length <= N over the 22-token alphabet %r (N=4 quick, N=5 thorough; distinct by "
         "construction, non-trivial = non-empty); (2) every .py file under the repository (quick: <= 8 KB; thorough: all; "
         "the scanner is quadratic); (3) seeded mutations of those files (delete/duplicate/swap a token, unbalance "
-        "a quote or bracket, splice lines)" % (ALPHABET,))
+        "a quote or bracket, splice lines); (4) the exhaustive product of statement templates header x gap x body x tail "
+        "(%d strings: same-line bodies, odd spacing, mixed quote styles, decorators, continuations)")
 REQUIRED_MONITORS = ("cst_parse.post", "cst_scanner.post")
 ASSUMPTIONS = ["line numbers are 1-based and a node's line_no_end is the line on which the next node starts"]
 CUR = {}
@@ -56,7 +57,7 @@ def repo_files(ctx):
 def streams(ctx):
     total = sum(len(ALPHABET) ** k for k in range(0, n_max(ctx) + 1))
     return [("alphabet", (total + BLOCK - 1) // BLOCK), ("files", len(repo_files(ctx))),
-            ("mutants", ctx.scale(300, 6000)), ("hand", len(HAND))]
+            ("mutants", ctx.scale(300, 6000)), ("hand", len(HAND)), ("templates", (N_TEMPLATES + BLOCK - 1) // BLOCK)]
 
 
 HAND = [
@@ -65,6 +66,30 @@ HAND = [
     "# only comment", "\t\tx\n", "\r\n", "x = [\n 1,\n 2]\n\n\n", "def f():\n    \"\"\"d\"\"\"\n", "async def f(): pass\n",
     "lambda: (yield)\n", "x = \"a # not comment\"\n", "@a\n@b\nclass C: pass", " \n \n", "\\", "\\\n", "def", "class", "def x", "class x:",
 ]
+
+
+# statement templates: header x gap x body x tail (exhaustive product). Same-line bodies, odd spacing and
+# mixed quote styles are where statement-boundary detection is decided; token sequences long enough to
+# express them (>= 6 tokens) are beyond the exhaustive alphabet bound.
+T_HEADERS = ("def f():", "def f(a, b=(1, 2)):", "async def f():", "class A:", "class A(B, metaclass=M):", "if x:", "for i in y:",
+             "with open(p) as f:", "@dec\ndef f():", "@dec(\n    1,\n)\nclass A:", "def f(\n    a,\n):", "    def m(self):",
+             "try:", "else:", "lambda:", "x = [", "def    :")
+T_GAPS = ("", " ", "    ", "\t", "\n    ", "\n\n    ", "\n        ", " \\\n    ", "  # c\n    ")
+T_BODIES = ('"""doc"""', "'''doc'''", '""""""', '"""a\nb"""', "'''x \"\"\" y'''", "pass", "return 1", "# only comment",
+            "x = '#not'", "y = (1,\n     2)", "z = \"\"\"s\"\"\"", "r'''raw'''", "...", "1]", "print('''t''')")
+T_TAILS = ("", "\n", "\n\n", "; return 2\n", "  # trailing\n", "\n    x = 1\n", "\nclass Z: pass")
+
+
+def template(i):
+    n = (len(T_HEADERS), len(T_GAPS), len(T_BODIES), len(T_TAILS))
+    a, i = i % n[0], i // n[0]
+    b, i = i % n[1], i // n[1]
+    c, i = i % n[2], i // n[2]
+    return T_HEADERS[a] + T_GAPS[b] + T_BODIES[c] + T_TAILS[i % n[3]]
+
+
+N_TEMPLATES = len(T_HEADERS) * len(T_GAPS) * len(T_BODIES) * len(T_TAILS)
+RULE = RULE_TPL % (ALPHABET, N_TEMPLATES)
 
 
 def decode(i):
@@ -195,6 +220,11 @@ def run_case(ctx, P, stream, idx):
         P.case({"mutant_of": os.path.relpath(path, REPO), "text": src}, klass="mutants",
                sample={"mutant_of": os.path.relpath(path, REPO), "bytes": len(src), "head": src[:200]})
         run_one(P, src)
+    elif stream == "templates":
+        lo, hi = idx * BLOCK, min(N_TEMPLATES, (idx + 1) * BLOCK)
+        for i in range(lo, hi):
+            run_one(P, template(i))
+        P.bulk(hi - lo, hi - lo, klass="templates", sample={"template_string": template(lo)})
     else:
         src = HAND[idx]
         P.case({"hand": src}, nontrivial=bool(src), klass="hand")
